@@ -681,6 +681,29 @@ func (s *Server) recordLocked(resKey, typ string, o Obj) {
 // ---------------------------------------------------------------------------------
 // mutating core (called with s.mu held).  Each returns (code, responseObject, message).
 
+// normMeta drops empty metadata collections: ObjectMeta is typed, so the API server round-trips it through
+// omitempty fields and an empty ownerReferences / finalizers / labels / annotations never reaches storage.
+func normMeta(o Obj) {
+	m, _ := o["metadata"].(map[string]interface{})
+	if m == nil {
+		return
+	}
+	for _, k := range []string{"ownerReferences", "finalizers"} {
+		if l, ok := m[k].([]interface{}); ok && len(l) == 0 {
+			delete(m, k)
+		} else if v, present := m[k]; present && v == nil {
+			delete(m, k)
+		}
+	}
+	for _, k := range []string{"labels", "annotations"} {
+		if mm, ok := m[k].(map[string]interface{}); ok && len(mm) == 0 {
+			delete(m, k)
+		} else if v, present := m[k]; present && v == nil {
+			delete(m, k)
+		}
+	}
+}
+
 func (s *Server) nextRV() string {
 	s.rv++
 	return strconv.FormatInt(s.rv, 10)
@@ -715,6 +738,7 @@ func (s *Server) createLocked(rd ResourceDef, ns string, body Obj) (int, Obj, st
 		return 422, nil, "metadata.ownerReferences: Only one reference can have Controller set to true"
 	}
 	o := CopyObj(body)
+	normMeta(o)
 	om := meta(o)
 	o["apiVersion"] = rd.APIVersion()
 	o["kind"] = rd.Kind
@@ -797,6 +821,7 @@ func (s *Server) updateLocked(rd ResourceDef, ns, name, sub string, body Obj) (i
 			return 422, nil, "metadata.ownerReferences: Only one reference can have Controller set to true"
 		}
 		o = CopyObj(body)
+		normMeta(o)
 		om := meta(o)
 		o["apiVersion"] = rd.APIVersion()
 		o["kind"] = rd.Kind
@@ -1111,6 +1136,14 @@ func (s *Server) applyLocked(rd ResourceDef, ns, name, manager string, force boo
 	if rd.StatusSub {
 		delete(applied, "status")
 	}
+	// metadata.ownerReferences is a list-map keyed by uid (+listType=map): merged, not replaced
+	var appliedOwners []interface{}
+	if l, ok := am["ownerReferences"].([]interface{}); ok {
+		appliedOwners = l
+		if exists {
+			delete(am, "ownerReferences")
+		}
+	}
 	var paths []string
 	leafPaths("", applied, &paths)
 	if !exists {
@@ -1187,6 +1220,24 @@ func (s *Server) applyLocked(rd ResourceDef, ns, name, manager string, force boo
 		}
 	}
 	om := meta(o)
+	if len(appliedOwners) > 0 {
+		curOwners, _ := om["ownerReferences"].([]interface{})
+		merged := append([]interface{}{}, curOwners...)
+		for _, a := range appliedOwners {
+			ar, _ := a.(map[string]interface{})
+			found := false
+			for i, c := range merged {
+				if cr, _ := c.(map[string]interface{}); cr != nil && cr["uid"] == ar["uid"] {
+					merged[i] = deepCopy(ar)
+					found = true
+				}
+			}
+			if !found {
+				merged = append(merged, deepCopy(ar))
+			}
+		}
+		om["ownerReferences"] = merged
+	}
 	om["resourceVersion"] = metaStr(cur, "resourceVersion")
 	code, res, msg := s.updateLocked(rd, ns, name, "", o)
 	if code == 200 {
